@@ -74,7 +74,7 @@ package poll
 //@ props C18
 //@ abstract-calls ^(add|rmv|Process)$
 //@ requires w != nil && w.metrics != nil && w.connections.conns != nil
-//@ site call rmv assert match
+//@ site call rmv assert [C18 C19] match
 // whenever the worker waits, it also waits for connects and disconnects: a listener that leaves while the worker
 // is idle is unregistered before the next message is handed out (a message put into the buffer of a dead
 // connection would be reported delivered)
